@@ -64,6 +64,12 @@ def run(ctx):
     runner.prove(ctx, MODULE, THEOREMS, FILES)
     g = SchemaGen(ctx.rnd)
     vals = [g.plain_value(ctx.n(3, 4)) for _ in range(ctx.n(150, 1200))]
+    if not ctx.quick():
+        # thorough: the whole small-scope value universe (incl. values from_native must refuse) and pairs of them
+        from .. import smallscope
+        sv = [x for x in smallscope.values() if gen_value.is_plain(x) and not isinstance(x, tuple)]   # the refusal branch has its own inputs
+        vals += sv + [[a, b] for a in sv[:23] for b in sv[:23]] + [{"a": a, "b": b} for a in sv[:23] for b in sv[:23]]
+        ctx.cov["smallscope_values"] = len(sv)
     # values in which the very same container object occurs at several positions (non-cyclic sharing)
     for _ in range(ctx.n(40, 300)):
         shared = ctx.rnd.choice([[1, 2], {"a": 1}, [], {}, [[0]], {"k": [1]}])
